@@ -158,6 +158,28 @@ def gen_ptier(rnd, domain="dec", nmax=5, name="P", labels=None, hi=10.0):
     return {"k": "P", "name": name, "es": es, "lo": lo, "hi": top}
 
 
+def with_dup_times(rnd, spec, labels=("k", "b", "zz", "a", "", "b-a")):
+    """a point-tier spec with a second (sometimes a third) point at the time of an existing one, under another — rarely the
+    same — label.  The PointTier constructor accepts such tiers (finding A24 lived there); entries stay in (time, label)
+    order, which is the order the constructor's sort gives"""
+    if spec["k"] != "P" or not spec["es"]:
+        return spec
+    es = [list(e) for e in spec["es"]]
+    for _ in range(rnd.choice([1, 1, 2])):
+        t, l = rnd.choice(es)
+        others = [x for x in labels if [t, x] not in es]
+        lab = l if (rnd.random() < 0.1 or not others) else rnd.choice(others)
+        es.append([t, lab])
+    es.sort()
+    return dict(spec, es=es)
+
+
+def dup_times(spec):
+    """the times that carry more than one point"""
+    ts = [e[0] for e in spec["es"]]
+    return sorted({t for t in ts if ts.count(t) > 1})
+
+
 def boundary_pool(spec, rnd, domain, hi=10.0):
     """interesting times relative to a tier: its boundaries, midpoints, and fresh ones"""
     pool = [spec["lo"], spec["hi"]]
